@@ -39,6 +39,13 @@ Verdict(r) ==
        (IF r.result = "panic" THEN "panic"
         ELSE IF r.ok /\ KeyLenOf(r.dst_ver, r.dst_kind) # 0 /\ r.body_len # KeyLenOf(r.dst_ver, r.dst_kind)
              THEN "bytes-of-another-kinds-length-accepted-as-key" ELSE "ok")
+  ELSE IF r.fn = "xser" THEN (IF r.binary_form_is_the_text THEN "ok" ELSE "binary-serde-form-drops-the-version-and-kind-header")
+  ELSE IF r.fn = "xserde" THEN          \* through serde in a binary format: the same separation as through FromStr
+       (LET same == r.src_ver = r.dst_ver /\ TextKindOf(r.src_kind) = TextKindOf(r.dst_kind)
+        IN IF r.result = "panic" THEN "panic"
+           ELSE IF ~same /\ r.ok THEN "accepted-as-another-version-or-kind-through-serde"
+           ELSE IF same /\ r.form = "text" /\ ~r.ok THEN "own-kind-rejected-through-serde"
+           ELSE "ok")
   ELSE IF r.fn # "xparse" THEN "unknown-record"
   ELSE IF r.result = "panic" THEN "panic"
   ELSE LET same == r.src_ver = r.dst_ver /\ TextKindOf(r.src_kind) = TextKindOf(r.dst_kind)
